@@ -146,6 +146,11 @@ class Verdict:
         cov["model_mismatches"] = len(self.mismatches)
         if self.mismatches:
             cov["model_mismatch_examples"] = self.mismatches[:5]
+        sigc = {}
+        for x in self.violations:
+            sigc[x["sig"]] = sigc.get(x["sig"], 0) + 1
+        if sigc:
+            cov["violation_signatures"] = sigc
         cov["known_findings_seen"] = {
             s: h["count"] for s, h in self.known_hits.items()
         }
